@@ -41,3 +41,4 @@ CFG = {'level': 'exploration',
  'assumptions': ['the clause-by-clause transcription of the doc comments in ref/refpath is correct (which paths and versions are valid inputs)',
                  'strings.EqualFold is the meaning of "equal ignoring case"']}
 CFG['level_text'] += ' Each batch also starts 12 (thorough 60) fresh child processes whose very first calls into package module come from sixteen goroutines released together (escape round trips and path verdicts).'
+CFG['level_text'] += ' Every third escape/unescape call is made twice in a row (valid and invalid inputs alike) and must give the same answer both times.'
